@@ -111,14 +111,14 @@ EXPECTED_PROBES = {
     "C02": _STRUCT + _PAINT + ["h_drain_full"],
     "C03": _STRUCT + ["ae_refused_non-forward", "ae_refused_merge_without_force", "ae_refused_third_child"],
     "C04": _STRUCT + ["io_restart_internal", "io_restart_geff", "io_restart_csv", "io_edit_after_restart"],
-    "C05": _STRUCT + ["io_restart_internal", "io_restart_geff", "io_restart_csv", "io_edit_after_restart", "c05_structure_changed"],
+    "C05": _STRUCT + ["io_restart_internal", "io_restart_geff", "io_restart_csv", "io_restart_late", "io_edit_after_restart", "c05_structure_changed"],
     "C06": _STRUCT + ["io_restart_internal", "io_edit_after_restart"],
     "C07": _PAINT + ["dn_leaf", "dn_middle", "h_undo_step", "h_redo_step", "cfg_2d", "cfg_3d"],
     "C08": _PAINT + ["f_enable_after_edits", "cfg_scale_none", "cfg_scale_ones", "cfg_scale_aniso", "cfg_2d", "cfg_3d"],
     "C09": _PAINT + ["f_enable_after_edits", "ae_skip", "de_skip_edge", "ae_join"],
     "C10": ["f_enable_after_edits", "f_edit_while_disabled", "f_reenable_ids", "f_unknown_key", "f_protected_time", "f_protected_track_id", "f_protected_lineage_id", "f_protected_area", "f_protected_pos", "f_protected_iou", "c10_enable_values_checked", "cfg_seg", "cfg_noseg", "cfg_ids_featuredict"],
     "C11": ["c11_add_edge_third child", "c11_add_edge_merge without force", "c11_add_edge_unknown", "c11_add_node_no_pos", "c11_add_node_exists", "c11_add_node_no_time", "c11_add_node_no_track", "c11_add_node_division", "c11_delete_node_unknown", "c11_delete_edge_missing", "c11_update_attrs_protected", "c11_swap_count", "pt_refused_after_overwrite"],
-    "C14": _IO + ["io_restart_internal", "io_restart_geff", "io_restart_csv", "io_edit_after_restart", "io_fault_write", "io_fault_open", "io_fault_read", "io_read_fault_raised", "cfg_pos_per_axis", "cfg_seg", "cfg_noseg", "cfg_scale_none"],
+    "C14": _IO + ["io_restart_internal", "io_restart_geff", "io_restart_csv", "io_restart_late", "io_edit_after_restart", "io_fault_write", "io_fault_open", "io_fault_read", "io_read_fault_raised", "cfg_pos_per_axis", "cfg_seg", "cfg_noseg", "cfg_scale_none"],
     "C15": ["io_csv_ok", "io_csv_tif_ok", "io_csv_names_ok", "io_geff2_ok", "io_geff3_ok", "io_subset_root", "io_subset_leaf", "io_subset_div_child", "io_subset_all", "io_subset_needed_ancestors", "io_subset_leaves", "io_subset_odd", "cfg_big_sparse_ids", "cfg_seg", "cfg_noseg"],
     "C16": ["io_csv_ok", "io_csv_tif_ok", "io_csv_names_ok", "io_geff2_ok", "io_geff3_ok", "io_internal_ok", "io_fault_write", "io_fault_open", "cfg_scale_none", "cfg_pos_per_axis"],
     "C20": _STRUCT + ["pt_new_label"],
